@@ -23,7 +23,7 @@ func subtractPairs(p *core.Program, info *types.Info, call *ast.CallExpr) [][2]s
 	if fn == nil {
 		return nil
 	}
-	if fn.Name() == "Subtract" && core.RecvTypeName(fn.Type().(*types.Signature)) == "ConnectionSet" {
+	if core.RefName(fn) == "Subtract" && core.RecvTypeName(fn.Type().(*types.Signature)) == "ConnectionSet" {
 		if se, ok := ast.Unparen(call.Fun).(*ast.SelectorExpr); ok && len(call.Args) == 1 {
 			return [][2]string{{core.ExprStr(se.X), core.ExprStr(call.Args[0])}}
 		}
@@ -73,7 +73,7 @@ func subtractPairs(p *core.Program, info *types.Info, call *ast.CallExpr) [][2]s
 			return true
 		}
 		cf := core.Callee(winfo, c)
-		if cf == nil || cf.Name() != "Subtract" || len(c.Args) != 1 {
+		if cf == nil || core.RefName(cf) != "Subtract" || len(c.Args) != 1 {
 			return true
 		}
 		se, ok := ast.Unparen(c.Fun).(*ast.SelectorExpr)
@@ -134,7 +134,7 @@ func PartitionDiscipline(p *core.Program, r *core.Report) {
 	st := pc.Underlying().(*types.Struct)
 	for i := 0; i < st.NumFields(); i++ {
 		if core.TypeIs(st.Field(i).Type(), core.PkgCommon, "ConnectionSet") {
-			layers = append(layers, st.Field(i).Name())
+			layers = append(layers, core.RefName(st.Field(i)))
 		}
 	}
 	if len(layers) != 3 {
@@ -153,7 +153,7 @@ func PartitionDiscipline(p *core.Program, r *core.Report) {
 				return true
 			}
 			fn := core.Callee(info, c)
-			if fn == nil || fn.Name() != "Union" || core.RecvTypeName(fn.Type().(*types.Signature)) != "ConnectionSet" {
+			if fn == nil || core.RefName(fn) != "Union" || core.RecvTypeName(fn.Type().(*types.Signature)) != "ConnectionSet" {
 				return true
 			}
 			se := ast.Unparen(c.Fun).(*ast.SelectorExpr)
@@ -166,7 +166,7 @@ func PartitionDiscipline(p *core.Program, r *core.Report) {
 		})
 		for _, u := range unions {
 			se := ast.Unparen(u.Fun).(*ast.SelectorExpr)
-			target := core.FieldOf(info, se.X).Name()
+			target := core.RefName(core.FieldOf(info, se.X))
 			incoming := core.ExprStr(u.Args[0])
 			// only merges of a set coming from outside (parameter-rooted) are precedence merges
 			if id := core.RootIdent(u.Args[0]); id == nil || !isParamOrRecv(m, info, id) || info.ObjectOf(id) == recv {
@@ -174,10 +174,10 @@ func PartitionDiscipline(p *core.Program, r *core.Report) {
 			}
 			required := []string{}
 			why := ""
-			if red, ok := partitionReduced[m.Obj.Name()]; ok {
+			if red, ok := partitionReduced[core.RefName(m.Obj)]; ok {
 				if req, ok := red[target]; ok {
 					required = req
-					why = partitionReducedWhy[m.Obj.Name()]
+					why = partitionReducedWhy[core.RefName(m.Obj)]
 				}
 			}
 			if why == "" {
@@ -187,7 +187,7 @@ func PartitionDiscipline(p *core.Program, r *core.Report) {
 					}
 				}
 			}
-			recvName := recv.Name()
+			recvName := core.RefName(recv)
 			for _, g := range required {
 				n++
 				wantSub := recvName + "." + g
@@ -219,7 +219,7 @@ func PartitionDiscipline(p *core.Program, r *core.Report) {
 				return true
 			}
 			fn := core.Callee(info, c)
-			if fn == nil || (fn.Name() != "Subtract" && fn.Name() != "Intersection") || core.RecvTypeName(fn.Type().(*types.Signature)) != "ConnectionSet" {
+			if fn == nil || (core.RefName(fn) != "Subtract" && core.RefName(fn) != "Intersection") || core.RecvTypeName(fn.Type().(*types.Signature)) != "ConnectionSet" {
 				return true
 			}
 			se := ast.Unparen(c.Fun).(*ast.SelectorExpr)
@@ -237,7 +237,7 @@ func PartitionDiscipline(p *core.Program, r *core.Report) {
 				for i, l := range as.Lhs {
 					if core.ExprStr(l) == core.ExprStr(se.X) && i < len(as.Rhs) {
 						if call, ok := ast.Unparen(as.Rhs[i]).(*ast.CallExpr); ok {
-							if f2 := core.Callee(info, call); f2 != nil && f2.Name() == "MakeConnectionSet" {
+							if f2 := core.Callee(info, call); f2 != nil && core.RefName(f2) == "MakeConnectionSet" {
 								return true
 							}
 						}
@@ -245,7 +245,7 @@ func PartitionDiscipline(p *core.Program, r *core.Report) {
 				}
 				return false
 			})
-			r.Check(found && dom, "C02-b", fmt.Sprintf("%s: %s.%s applied to a set made fresh in the function", m.Key(), core.ExprStr(se.X), fn.Name()), p.Pos(c.Pos()),
+			r.Check(found && dom, "C02-b", fmt.Sprintf("%s: %s.%s applied to a set made fresh in the function", m.Key(), core.ExprStr(se.X), core.RefName(fn)), p.Pos(c.Pos()),
 				"the reduced layer was re-created by MakeConnectionSet in this function", "a layer already collected from higher-precedence policies is reduced in place: decided connections are lost")
 			return true
 		})
@@ -344,7 +344,7 @@ func PriorityComparator(p *core.Program, r *core.Report) {
 			return true
 		}
 		fn := core.Callee(info, call)
-		if fn == nil || fn.Pkg() == nil || fn.Pkg().Path() != "sort" || !strings.HasPrefix(fn.Name(), "Slice") {
+		if fn == nil || fn.Pkg() == nil || fn.Pkg().Path() != "sort" || !strings.HasPrefix(core.RefName(fn), "Slice") {
 			return true
 		}
 		fl, ok := call.Args[1].(*ast.FuncLit)
@@ -404,7 +404,7 @@ func findLayerCalls(info *types.Info, fd *core.FuncDecl, anpName, npName, banpNa
 		if fn == nil {
 			return true
 		}
-		switch fn.Name() {
+		switch core.RefName(fn) {
 		case anpName:
 			lc.anp = c
 		case npName:
@@ -499,7 +499,7 @@ func listLayerTable(p *core.Program, r *core.Report, fd *core.FuncDecl, anpConns
 	w.Transfer = func(st int, n ast.Node, f facts.Formula) int {
 		if c, ok := n.(*ast.CallExpr); ok {
 			if fn := core.Callee(info, c); fn != nil {
-				switch fn.Name() {
+				switch core.RefName(fn) {
 				case "CollectAllowedConnsFromNetpols":
 					return 1
 				case "CollectConnsFromBANP":
@@ -702,8 +702,8 @@ func FirstMatchLoops(p *core.Program, r *core.Report) {
 				continue
 			}
 			n++
-			r.Check(bad == "", "C02-first", fmt.Sprintf("%s: after the verdict %s the next policy/rule is consulted only on NotCaptured", fd.Key(), v.obj.Name()), p.Pos(v.as.Pos()),
-				"every continue / fall-through after the verdict is under "+v.obj.Name()+" == NotCaptured; any other verdict leaves the loop",
+			r.Check(bad == "", "C02-first", fmt.Sprintf("%s: after the verdict %s the next policy/rule is consulted only on NotCaptured", fd.Key(), core.RefName(v.obj)), p.Pos(v.as.Pos()),
+				"every continue / fall-through after the verdict is under "+core.RefName(v.obj)+" == NotCaptured; any other verdict leaves the loop",
 				"the loop goes on to the next (lower-precedence) policy or rule ("+bad+") although the verdict may be Pass/Allow/Deny: the first match must win")
 		}
 	}
@@ -760,7 +760,7 @@ func AdminRuleIterationSiblings(p *core.Program, r *core.Report, rule string) {
 		var call *ast.CallExpr
 		ast.Inspect(fd.Decl.Body, func(n ast.Node) bool {
 			if c, ok := n.(*ast.CallExpr); ok {
-				if fn := core.Callee(info, c); fn != nil && fn.Name() == s.helper {
+				if fn := core.Callee(info, c); fn != nil && core.RefName(fn) == s.helper {
 					call = c
 				}
 			}
@@ -801,7 +801,7 @@ func AdminRuleIterationSiblings(p *core.Program, r *core.Report, rule string) {
 				}
 				id, ok := ast.Unparen(args[k]).(*ast.Ident)
 				if !ok || info.ObjectOf(id) != sig.Params().At(i) {
-					bad = append(bad, fmt.Sprintf("argument #%d is %s, not the parameter %s", k+1, core.ExprStr(args[k]), sig.Params().At(i).Name()))
+					bad = append(bad, fmt.Sprintf("argument #%d is %s, not the parameter %s", k+1, core.ExprStr(args[k]), core.RefName(sig.Params().At(i))))
 				}
 				k++
 			}
